@@ -14,6 +14,21 @@ CHECKS = {
     note="Trusted: TLC, Views.tla as a transcription of NumPy semantics (cross-checked by the law model), drv_views.cpp. Zero-dimensional results are outside nmtools' array universe.",
     technique="TLA+ reference semantics + TLC law checking; TLC-generated case tables replayed on the code; trace validation of every result",
     design="5/C03"),
+ "C04": dict(
+    text="TLC checks provenance/inverse/equivalence laws of the reference semantics of the selecting, replicating, joining and generating views (Select.tla, MC_Select.tla) on every source shape of the scope; the argument grids of the property are executed on the real views and TraceOps.tla decides every event (success flag, shape, every element) against the reference; seeded larger shapes likewise.",
+    note="Trusted: TLC, Select.tla as transcription of NumPy / the documented pad, resize, expand definitions (cross-checked by the law model), drv_select.cpp, the enumeration of argument grids in checks/c04.py. Six input classes are known findings (known_findings.json).",
+    technique="TLA+ reference semantics + TLC law checking; trace validation of every result of the real views by TLC",
+    design="5/C04"),
+ "C05": dict(
+    text="TLC checks Python's slice.indices characterisation per axis (MC_Slice.tla: selected positions = range(start',stop',step), defaults, negative bounds) on every (n,start,stop,step) of the scope; TLC exports the per-axis and a multi-axis family, the driver runs them under every slice encoding (packed, pairs, variadic, list-of-either, array<int,3>) and TraceOps.tla decides shape and elements; seeded multi-axis specifications likewise.",
+    note="Trusted: TLC, Slice.tla, drv_slice.cpp (type-menu dispatch of None-ness). Two input classes are known findings; two defects were repaired by fix: commits.",
+    technique="TLA+ reference semantics + TLC law checking per axis; TLC-generated case tables replayed; trace validation by TLC",
+    design="5/C05"),
+ "C06": dict(
+    text="TLC checks the broadcasting laws (criterion, commutativity, associativity incl. failure agreement, idempotence, scalar neutrality, broadcast_to validity and provenance) on all pairs and triples of the scope and that the implementation-shaped loop of index::broadcast_shape refines the reference; TLC exports all pairs/triples, the driver runs broadcast_shape (four container kinds), shape_broadcast_to, view::broadcast_to and broadcast_arrays, and TraceOps.tla decides every event.",
+    note="Trusted: TLC, Broadcast.tla, drv_broadcast.cpp. Mixed compile-time/run-time shape containers are C09's.",
+    technique="TLA+ reference + implementation-shaped model, refinement and laws checked by TLC; TLC-generated tables replayed; trace validation",
+    design="5/C06"),
 }
 
 NOT_APPLICABLE = {}
